@@ -1,12 +1,14 @@
 package props
 
 import (
+	"go/types"
 	"fmt"
 	"strings"
 
 	"golang.org/x/tools/go/ssa"
 
 	"svcheck/absint"
+	"svcheck/effects"
 	"svcheck/load"
 	"svcheck/report"
 	"svcheck/sibling"
@@ -39,6 +41,86 @@ var leafEntries = map[string][]string{
 	"C13": {"Scalar.LessOrEqual", "Scalar.CSelect", "Scalar.Equal", "Scalar.IsZero", "Scalar.IsOne"},
 	"C14": {"Scalar.Bits"},
 	"C18": {"Scalar.Random"},
+}
+
+// stateEntries: the functions whose per-call analysis starts from the initial package-level state (leafEntries plus
+// the scalar arithmetic of C06).
+var stateEntries = map[string][]string{
+	"C06": {"Scalar.Add", "Scalar.Subtract", "Scalar.Multiply", "Scalar.Square", "Scalar.Invert", "Scalar.Pow", "Scalar.SetUInt64", "Scalar.One", "Scalar.MinusOne", "Scalar.Zero", "Scalar.Set", "Scalar.Copy"},
+}
+
+// stableGlobals: the per-call analyses read package-level variables in their initial state. That is only valid
+// for every history if nothing outside init writes such a variable and no exported function hands a pointer into
+// it to the caller (who could then change it).
+func stableGlobals(p *load.Prog, r *report.Report, prop string) {
+	names := append(append([]string{}, leafEntries[prop]...), stateEntries[prop]...)
+	if len(names) == 0 {
+		return
+	}
+	a := effects.Run(p)
+	exposed := map[string]string{} // global -> exported function handing it out
+	written := map[string]string{}
+	for _, f := range p.ExportedAPI() {
+		sum := a.Sums[f]
+		if sum == nil {
+			continue
+		}
+		for i, ret := range sum.Ret {
+			// a sentinel error handed out as an error value cannot be written through by the caller
+			if i < f.Signature.Results().Len() {
+				if n, ok := f.Signature.Results().At(i).Type().(*types.Named); ok && n.Obj().Pkg() == nil && n.Obj().Name() == "error" {
+					continue
+				}
+			}
+			for k := range ret {
+				if strings.HasPrefix(k, "G:") && exposed[k] == "" {
+					exposed[k] = f.Name()
+				}
+			}
+		}
+		for k := range sum.Wr {
+			if strings.HasPrefix(k, "G:") && written[k] == "" {
+				written[k] = f.Name()
+			}
+		}
+	}
+	n, bad := 0, 0
+	for _, nm := range names {
+		var fn *ssa.Function
+		if i := strings.Index(nm, "."); i >= 0 {
+			fn = p.Method(p.Root, nm[:i], nm[i+1:])
+		} else {
+			fn = p.Root.Func(nm)
+		}
+		if fn == nil || a.Sums[fn] == nil {
+			continue
+		}
+		refs := map[string]bool{}
+		for g := range p.Reachable(fn) {
+			for _, b := range g.Blocks {
+				for _, in := range b.Instrs {
+					for _, op := range in.Operands(nil) {
+						if gl, ok := (*op).(*ssa.Global); ok && p.InModuleGlobal(gl) {
+							refs["G:"+gl.Pkg.Pkg.Path()+"."+gl.Name()] = true
+						}
+					}
+				}
+			}
+		}
+		for g := range refs {
+			n++
+			if w := exposed[g]; w != "" {
+				bad++
+				r.Fail(prop+".state", nm+" reads "+strings.TrimPrefix(g, "G:"), p.Pos(fn.Pos()), "the function reads a package-level variable that "+w+" hands to its caller by reference: a caller that writes through that result changes what this function computes")
+			} else if w := written[g]; w != "" {
+				bad++
+				r.Fail(prop+".state", nm+" reads "+strings.TrimPrefix(g, "G:"), p.Pos(fn.Pos()), "the function reads a package-level variable that "+w+" writes outside package initialisation: its result depends on the history of calls")
+			}
+		}
+	}
+	if bad == 0 {
+		r.OK(prop+".state", "package-level state read", fmt.Sprintf("%d read(s) of module variables from the property's entry points: none written outside init, none handed out by reference", n))
+	}
 }
 
 // leafIntegrity runs the sibling cross-check on the generated primitives reachable from the property's entries.
